@@ -176,7 +176,7 @@ Definition int_max (t : ndt) : Z :=
 Definition is_intlike (t : ndt) : bool := match dt_kind t with DBool | DInt | DUInt => true | _ => false end.
 
 (* what scaling_needed looks at in the data: size, finite_range() and its two special values *)
-Record dinfo := mkInfo { size0 : bool; allzero : bool; nofinite : bool; imn : Z; imx : Z }.
+Record dinfo := mkInfo { size0 : bool; allzero : bool; nofinite : bool; hasinf : bool; imn : Z; imx : Z }.
 
 Inductive decision := NoScale | Scale | ErrWriter.
 Inductive wclass := WPlain | WSlope | WSlopeInter.
@@ -200,7 +200,9 @@ Definition base_scaling_needed (cc : list (Z * Z)) (m d : ndt) (i : dinfo) : dec
         | DFloat => NoScale
         | _ =>
           if size0 i then NoScale
-          else if allzero i then NoScale
+          else if allzero i then
+            (* finite data all zero: infinities still need the thresholds only the scaling writers apply *)
+            match dt_kind m with DFloat => if hasinf i then Scale else NoScale | _ => NoScale end
           else match dt_kind m with
                | DFloat => Scale
                | _ => if (int_min d <=? imn i)%Z && (imx i <=? int_max d)%Z then NoScale else Scale
@@ -209,12 +211,12 @@ Definition base_scaling_needed (cc : list (Z * Z)) (m d : ndt) (i : dinfo) : dec
       end
     end
   end.
-(* SlopeArrayWriter.scaling_needed: data without any finite value are not rescaled *)
+(* SlopeArrayWriter.scaling_needed: data without any finite value, or whose finite values are all zero, are not rescaled *)
 Definition scaling_needed (cc : list (Z * Z)) (c : wclass) (m d : ndt) (i : dinfo) : decision :=
   match c with
   | WPlain => base_scaling_needed cc m d i
   | _ => match base_scaling_needed cc m d i with
-         | Scale => if nofinite i then NoScale else Scale
+         | Scale => if nofinite i || allzero i then NoScale else Scale
          | r => r
          end
   end.
